@@ -45,6 +45,19 @@ class AnySet(object):
         self.make_elem = make_elem          # (E, tag) -> fresh arbitrary member
         self.known = []                     # materialised members
         self.added = []                     # elements added by the code under verification
+        self.member_bits = {}               # id(value) -> ghost Bool "value is a member" for values tested with `in`
+
+
+def member_key(x):
+    """identity of a tested value: the z3 term for symbolic scalars (wrappers are re-created freely), the object otherwise"""
+    return ("t", x.t.get_id()) if isinstance(x, SV) else ("o", id(x))
+
+
+class AnyItems(object):
+    """d.items() of an AnyDict: iterated by the witness rule, the member is the pair (key, value)"""
+    def __init__(self, d):
+        self.d = d
+        self.name = d.name + ".items"
 
 
 def _fresh_key(E, d, tag):
@@ -110,6 +123,8 @@ def _dict_method(M, d, name, args, kwargs):
         return args[1] if len(args) > 1 else None
     if name in ("keys", "__iter__"):
         return d
+    if name == "items":
+        return AnyItems(d)
     raise Unsupported("%s of a dict of unbounded size" % name)
 
 
@@ -141,6 +156,18 @@ def _getitem(self, o, k):
 
 Models.getitem = _getitem
 
+_orig_sorted = Models.b_sorted
+
+
+def _b_sorted(self, a, k):
+    # sorted(<unbounded collection>) handed to a scan loop: the order of a scan is irrelevant to what it establishes
+    if a and isinstance(a[0], (AnyDict, AnySet, AnyItems)) and not k:
+        return a[0]
+    return _orig_sorted(self, a, k)
+
+
+Models.b_sorted = _b_sorted
+
 _orig_contains = Models.contains
 
 
@@ -148,6 +175,14 @@ def _contains(self, c, x):
     if isinstance(c, AnyDict):
         ent = dict_lookup(self.E, c, x)
         return _entry_present(self.E, c, ent, "in")
+    if isinstance(c, AnySet):
+        for y in list(c.known) + list(c.added):
+            if y is x:
+                return True
+        k = member_key(x)
+        if k not in c.member_bits:
+            c.member_bits[k] = sym.as_bool(self.E.fresh("%s.has" % c.name, z3.BoolSort()))
+        return self.E.decide(c.member_bits[k])
     return _orig_contains(self, c, x)
 
 
@@ -169,7 +204,7 @@ _orig_for = Engine.s_For
 
 def _s_for(self, s, env):
     it = self.eval(s.iter, env)
-    if not isinstance(it, (AnyDict, AnySet)):
+    if not isinstance(it, (AnyDict, AnySet, AnyItems)):
         # (the iterable was evaluated once already: evaluate-once semantics are kept by handing the value on)
         return _for_value(self, s, env, it)
     if _assigns_names(s.body) or s.orelse:
@@ -181,6 +216,8 @@ def _s_for(self, s, env):
         if isinstance(it, AnyDict):
             k, v = dict_member(self, it, tag)
             return k
+        if isinstance(it, AnyItems):
+            return tuple(dict_member(self, it.d, tag))
         x = it.make_elem(self, tag)
         it.known.append(x)
         return x
